@@ -41,6 +41,7 @@ def bounds(tier):
             "half_selection": "16 nodes = 8 antipodal pairs: 6 concrete (projected hypercube vertices), 2 symbolic unit quaternions with 0..3 leading zeros each "
                               "(all 15 combinations for fulldiv, N = 8 of 8; 6 (thorough 15) for cube4D, N = 5 of 8; thorough: three node orders); leading non-zero coordinate of a symbolic node "
                               "more than 1e-3 away from 0 and from +-1/2",
+            "one_point_grids": "zero3D / zero4D through the factory with N in {None, 1, 2, 3} (concrete runs judged by the statement)",
             "double_cover": "N in 1..4 canonical unit rows (quick: for N=4 rows 3,4 have a positive first coordinate); plus an axis-aligned row of symbolic length off 1 by > 1e-3 (assertion)"}
 
 
@@ -56,6 +57,10 @@ def shapes(tier, seed):
         out.append({"kind": "double", "N": N, "unit": True, "lead": N, "history": True})
     for N in (8, 40, 272, 2080, "other"):
         out.append({"kind": "fulldiv", "N": N})
+    # the two one-point grids asked for with an explicit N (the zero algorithms define N = 1 themselves)
+    for dim in (3, 4):
+        for N in (None, 1, 2, 3):
+            out.append({"kind": "zero", "dim": dim, "N": N})
     # half selection of the hypercube algorithms on a polytope stand-in: two symbolic antipodal pairs among six concrete ones; (za, zb) =
     # number of leading zero coordinates of the two symbolic quaternions (the ties of the canonical-half test)
     for za in range(4):
@@ -86,7 +91,7 @@ def canonical(q):
 
 
 def run_shape(shape):
-    return {"upper": run_upper, "hemi": run_hemi, "double": run_double, "fulldiv": run_fulldiv, "halfsel": run_halfsel}[shape["kind"]](shape)
+    return {"upper": run_upper, "hemi": run_hemi, "double": run_double, "fulldiv": run_fulldiv, "halfsel": run_halfsel, "zero": run_zero}[shape["kind"]](shape)
 
 
 def run_fulldiv(shape):
@@ -520,6 +525,74 @@ def replay_halfsel(cex):
             bad.append(f"a={a.tolist()} b={b.tolist()}: {what}")
     return {"reproduced": bool(bad), "detail": str(bad[:2])}
 
+
+# ------------------------------------------------------------------------------------------ the one-point grids
+def _zero_facts(RO, dim, N):
+    """the zero grid of one dimension asked for with N through the factory; returns what the statement speaks about, or the exception"""
+    import contextlib, io
+    with contextlib.redirect_stdout(io.StringIO()):
+        g = RO.SphereGridFactory.create("zero3D" if dim == 3 else "zero4D", N, dimensions=dim)
+        half = np.asarray(g.get_grid_as_array(only_upper=True) if dim == 4 else g.get_grid_as_array(), dtype=float)
+        full = np.asarray(g.get_grid_as_array(only_upper=False), dtype=float) if dim == 4 else None
+        n_ = g.get_N()
+    return half, full, n_
+
+
+def _zero_problems(dim, half, full, n_):
+    what = []
+    if half.ndim != 2 or half.shape[1] != dim or len(half) != n_:
+        what.append(f"{len(half)} rows of width {half.shape[1:]} for get_N() = {n_}")
+        return what
+    for i in range(len(half)):
+        for j in range(i):
+            if np.allclose(half[i], half[j]) or (dim == 4 and np.allclose(half[i], -half[j])):
+                what.append(f"rows {j} and {i} are the same {'rotation' if dim == 4 else 'point'} {half[i].tolist()}")
+    if not np.allclose(np.linalg.norm(half, axis=1), 1.0):
+        what.append("a row is not a unit vector")
+    if n_ == 1 and not np.allclose(half[0], [0, 0, 1] if dim == 3 else [0, 0, 0, 1]):
+        what.append(f"the one-point grid is {half[0].tolist()}, not the z direction / the identity rotation")
+    if dim == 4 and (full.shape != (2 * n_, 4) or not np.array_equal(full[:n_], half) or not np.array_equal(full[n_:], -half)):
+        what.append("the double cover is not [G; -G]")
+    return what
+
+
+def run_zero(shape):
+    """The one-point grids have no symbolic input: the real factory / constructor / gen_grid run concretely for N in {None, 1, 2, 3} and the
+    result is judged by the statement (rows pairwise different rotations / points, unit, count = get_N(), [G; -G]; the identity rotation or
+    the z direction for one point).  Whether an explicit N > 1 is refused, coerced to 1 or honoured is not C07's matter -- a returned grid
+    with repeated rows is."""
+    import molgri.space.rotobj as RO
+    eng = Engine()
+    prover = Prover(timeout_ms=5000, budget_s=60)
+    acc = Acc(shape)
+
+    def body():
+        return _zero_facts(RO, shape["dim"], shape["N"])
+
+    for path in eng.explore(body):
+        acc.begin(prover, path)
+        acc.reach("sat")
+        if path.kind == "exc":
+            ok = isinstance(path.value, (ValueError, AssertionError)) and shape["N"] not in (None, 1)
+            acc.structural("one_point_grid_is_generated", ok, detail=repr(path.value), cex={"kind": "exception"})
+            continue
+        what = _zero_problems(shape["dim"], *path.value)
+        acc.structural("rows_are_distinct_unit_points_and_the_double_cover_is_G_minus_G", not what, detail=what, cex={})
+    return acc.result(eng.stats, prover.stats)
+
+
+def replay_zero(cex):
+    import molgri.space.rotobj as RO
+    s = cex["shape"]
+    try:
+        facts = _zero_facts(RO, s["dim"], s["N"])
+    except (ValueError, AssertionError) as e:
+        return {"reproduced": s["N"] in (None, 1), "detail": f"zero grid, dimension {s['dim']}, N={s['N']}: raised {e!r}"}
+    except Exception as e:  # noqa: BLE001
+        return {"reproduced": True, "detail": f"zero grid, dimension {s['dim']}, N={s['N']}: raised {e!r}"}
+    what = _zero_problems(s["dim"], *facts)
+    return {"reproduced": bool(what), "detail": f"zero grid, dimension {s['dim']}, requested N={s['N']}: {what}"}
+
 # ------------------------------------------------------------------------------------------ replay on the real code
 def _canon_f(q):
     for x in q:
@@ -540,6 +613,8 @@ def replay(cex):
     bad = []
     if s["kind"] == "halfsel":
         return replay_halfsel(cex)
+    if s["kind"] == "zero":
+        return replay_zero(cex)
     if s["kind"] == "fulldiv":
         class Counter:
             def __init__(self):
